@@ -141,3 +141,27 @@ def check_many_required(ctx, rid):
         else:
             ctx.ok(rid, f"{short}.dump_many declares everything its dump_one requires ({sorted(one_req)})", f"{fm.module.relpath}:{fm.lineno}")
     ctx.floor(rid, n, 3, "dump_many writers built on dump_one")
+
+
+def check_prepare_error_sources(ctx, rid):
+    """PrepareDumpError promises "nothing was written": it may only be raised before the file is opened, i.e. by
+    `_check_required`, a module's `prepare_dump` and the `prepare_*` helpers -- never by code a writer reaches."""
+    from ..astutil import raises_class
+
+    prog = ctx.prog
+    n = 0
+    for short, m in sorted(prog.format_modules().items()):
+        roots = [g for g in (prog.funcs.get(f"{m.name}.dump_one"), prog.funcs.get(f"{m.name}.dump_many")) if g is not None]
+        if not roots:
+            continue
+        pd = prog.funcs.get(f"{m.name}.prepare_dump")
+        pre = set(prog.callees_closure([pd])) | {pd} if pd is not None else set()
+        for g in set(prog.callees_closure(roots)) | set(roots):
+            if g in pre or not g.module.name.startswith("iodata."):
+                continue
+            n += 1
+            for r in [x for x in g.own_nodes() if isinstance(x, ast.Raise)]:
+                if raises_class(r) == "PrepareDumpError":
+                    ctx.violate(rid, f"{g.qualname} (reached from the {short} writer) raises PrepareDumpError: at that point the output file is already open (truncated), while this error class promises that nothing was written", g, r)
+    ctx.ok(rid, f"no function reached from a writer raises PrepareDumpError ({n} functions)", "iodata/formats")
+    ctx.floor(rid, n, 20, "functions reached from writers")
